@@ -209,7 +209,7 @@ pub fn gen_bin_n(rng: &mut Rng, n: usize) -> Bs {
 }
 
 /// Ordinary first levels that resemble `$share/` and `$SYS/` (all valid, unshared).
-pub const NEAR_MISS: [&str; 10] = ["$sharex/", "$share", "$shar/", "$Share/", "$shared/", "$SYS", "$sys/", "$/", "$share$/", "$sharé/"];
+pub const NEAR_MISS: [&str; 14] = ["$sharex/", "$share", "$shar/", "$Share/", "$shared/", "$SYS", "$sys/", "$/", "$share$/", "$sharé/", "$queue/", "$queue", "$Queue/", "$local/"];
 
 fn level_ok(c: char) -> bool {
     !matches!(c, '/' | '+' | '#' | '\0')
